@@ -54,7 +54,14 @@ def programs(draw, max_modules=3, max_tasks=4, kinds=KINDS_BASIC, patterns=True,
         deps = []
         for mj in range(mi):
             if draw(st.booleans()) or (mj == mi - 1 and draw(st.booleans())):
-                deps.append({'mod': mj, 'rel': draw(st.sampled_from(REL_NS))})
+                deps.append({'mod': mj, 'rel': draw(st.sampled_from(REL_NS)), 'voff': 0})
+                if draw(st.integers(0, 2)) == 0:
+                    # the documented pattern: ONE pipeline used twice under different namespaces with different
+                    # configs ("train_data.yaml as train", "valid_data.yaml as valid"), consumed side by side
+                    rel2 = draw(st.sampled_from(['left', 'right', 'valid', 'm2']))
+                    if deps[-1]['rel'] == '':
+                        deps[-1]['rel'] = draw(st.sampled_from(['train', 'm']))
+                    deps.append({'mod': mj, 'rel': rel2, 'voff': draw(st.integers(0, 2))})
         mod = {'name': MODULE_NAMES[mi], 'sub': sub, 'deps': deps, 'tasks': [], 'objects': objects}
         ntasks = draw(st.integers(1, max_tasks))
         for ti in range(ntasks):
@@ -302,7 +309,8 @@ def config_trees(draw, program, n_variants=None, allow_multi=True, allow_context
                 else:
                     node['tasks_how'] = 'wild'
             for d in mod['deps']:
-                node['uses'].append({'file': None, 'mod': d['mod'], 'variant': v, 'ns': d['rel'] or None})
+                node['uses'].append({'file': None, 'mod': d['mod'], 'variant': (v + d.get('voff', 0)) % nvar,
+                                     'ns': d['rel'] or None})
             fmt = draw(st.sampled_from(['json', 'json', 'yaml']))
             sep = draw(st.sampled_from(['_v', '_v', '.v']))   # config names may contain dots (exp.v2.yaml -> exp.v2)
             files.append({'name': f'{mod["name"]}{sep}{v}', 'fmt': fmt, 'node': node})
